@@ -443,9 +443,13 @@ def load_known():
 def write_replay(prop, seed, n, case, mm, theorem=None, note=None):
     d = os.path.join(VERIF, 'replays')
     os.makedirs(d, exist_ok=True)
-    path = os.path.join(d, '%s-%s-%d.json' % (prop.id, seed, n))
+    # runs against a scratch copy of the repository (seeded / harmless change experiments) keep their replays apart, so
+    # that they never overwrite what a run against /repo itself reported
+    foreign = os.path.realpath(REPO) != os.path.realpath('/repo')
+    name = '%s-%s-%d.json' % (prop.id, seed, n)
+    path = os.path.join(d, ('scratch-%d-' % os.getpid() if foreign else '') + name)
     with open(path, 'w') as f:
-        json.dump({'property': prop.id, 'seed': seed, 'case': case,
+        json.dump({'property': prop.id, 'seed': seed, 'case': case, 'repo': REPO,
                    'what': mm.what if mm else None,
                    'impl': mm.impl if mm else None, 'model': mm.model if mm else None,
                    'relation': mm.relation if mm else None,
